@@ -26,3 +26,49 @@ Proof.
   - rewrite H1. reflexivity.
   - rewrite H1. apply parse_headers_leading_lf.
 Qed.
+
+(* ---- one level up: formparser._chunk_iter(stream.read, buffer_size).  The stream returns, on its
+   i-th read(buffer_size) call, at least one and at most min(buffer_size, k_i) bytes while data
+   remains (k_i = 0 or a missing entry: no bound of its own), and nothing at the end. *)
+From Coq Require Import Lia.
+
+Fixpoint reads_of (fuel : nat) (bs : nat) (sched : list nat) (data : bytes) : list bytes :=
+  match fuel with
+  | O => match data with [] => [] | _ => [data] end
+  | S f =>
+    match data with
+    | [] => []
+    | _ =>
+      let k := match sched with k :: _ => if Nat.eqb k 0 then bs else Nat.min bs k | [] => bs end in
+      let n := Nat.max 1 k in
+      firstn n data :: reads_of f bs (tl sched) (skipn n data)
+    end
+  end.
+
+Lemma reads_concat fuel bs sched data : concat (reads_of fuel bs sched data) = data.
+Proof.
+  revert sched data. induction fuel as [|f IH]; intros sched data; cbn [reads_of].
+  - destruct data; cbn [concat]; [reflexivity|]. rewrite app_nil_r. reflexivity.
+  - destruct data as [|d0 dr]; [reflexivity|].
+    cbn [concat]. rewrite IH. apply firstn_skipn.
+Qed.
+
+(* the parts the form parser sees do not depend on its buffer size nor on short reads *)
+Theorem formparser_read_schedule B W fuel bs sched :
+  good_boundary B = true -> wf_oneshot B W = true ->
+  same_parsed_parts (drive no_limits B (reads_of fuel bs sched W)) (drive no_limits B [W]).
+Proof. intros HB Hwf. apply chunk_independence_parsed; [exact HB|exact Hwf|apply reads_concat]. Qed.
+
+(* every read is non-empty and at most buffer_size long (buffer_size >= 1), as _chunk_iter needs *)
+Lemma reads_sizes fuel bs sched data c :
+  (1 <= bs)%nat -> (length data <= fuel)%nat -> In c (reads_of fuel bs sched data) ->
+  (1 <= length c <= bs)%nat.
+Proof.
+  intro Hbs. revert sched data. induction fuel as [|f IH]; intros sched data Hlen Hin; cbn [reads_of] in Hin.
+  - destruct data; [destruct Hin|]. cbn [length] in Hlen. lia.
+  - destruct data as [|d0 dr]; [destruct Hin|].
+    destruct Hin as [<-|Hin].
+    + rewrite firstn_length. cbn [length].
+      destruct sched as [|k sr]; [lia|]. destruct (Nat.eqb k 0); lia.
+    + apply IH in Hin; [exact Hin|]. rewrite skipn_length. cbn [length] in *. lia.
+Qed.
